@@ -4,13 +4,20 @@
    votes, for any validator set, any power distribution and any Byzantine subset below one third,
    from four rules every honest validator obeys.  (b) Model/Node.v (the executable model of
    state.go that the "consensus" engine runs against the real ConsensusState): each rule is a
-   theorem about every state and every input of the node.  The composition of (b) into (a) over
-   an N-node system - that a +2/3 majority in a node's vote set is a +2/3 majority of the global
-   history, by signature unforgeability - is argued in DESIGN.md and not mechanised
-   (agreement_partial there); it is what the engine's fork monitor watches on the real code. *)
+   theorem about every state and every input of the node.  (c) Proofs/System.v composes them: a
+   system of honest nodes (each the Model.Node machine) and Byzantine validators below one third
+   of the power, on an arbitrary network (any order, loss, duplication, delay), with signatures
+   idealised by one assumption - a vote that verifies under an honest validator's key and reaches
+   a node was emitted by that validator's node ([admissible]).  Every reachable trace of signed
+   votes satisfies the local forms of R0-R3 (from Proofs/Emit.v, SgWalk.v, CommitWalk.v, Backed.v:
+   walks over every function of the node model), and any two commits of the height are for the
+   same block hash ([c01_system_agreement]).  Not covered by (c): nodes that restart within the
+   height (C07 shows replay restores the state the signer saw), the skip-commit configuration
+   ([c_skip_commit c = false] is assumed), and timeouts for rounds the node has not reached
+   ([input_ok]: the real ticker only delivers timeouts the node scheduled). *)
 From Coq Require Import List NArith ZArith Lia Bool.
 From AnnVerif Require Import Base.Res Base.Bytes Model.VoteSet Model.ValSet Model.Node
-  Proofs.PowerSum Proofs.Protocol Proofs.NodeProofs.
+  Proofs.PowerSum Proofs.Protocol Proofs.NodeProofs Proofs.NodeBacked Proofs.Emit Proofs.SgWalk Proofs.CommitWalk Proofs.System.
 Import ListNotations.
 Open Scope Z_scope.
 
@@ -74,3 +81,87 @@ Theorem c01_node_commit :
      /\ height n' = height n + 1.
 Proof. exact commit_rule. Qed.
 Print Assumptions c01_node_commit.
+
+(* (7) the N-node system: every reachable state satisfies the system invariant - the trace obeys
+   the local rules, every honest node's vote sets are made of votes in the trace, its signer
+   dominates its own votes in the trace, and every observed commit rests on +2/3 precommits of
+   one round in the trace *)
+Theorem c01_system_invariant :
+  forall (VS : list validator), bounded VS -> forall (h0 : Z) (c : cfg), c_skip_commit c = false ->
+  forall (byz : nat -> bool) (S : System.sys), reachable VS h0 c byz S -> SysInv VS h0 byz S.
+Proof. exact reachable_SysInv. Qed.
+Print Assumptions c01_system_invariant.
+
+(* (8) agreement for the system: whatever the schedule, the network and the Byzantine validators
+   (below one third of the power) do, two commits of the height - by any honest validators - are
+   for the same block hash *)
+Theorem c01_system_agreement :
+  forall (VS : list validator), bounded VS -> forall (h0 : Z) (c : cfg), c_skip_commit c = false ->
+  forall (byz : nat -> bool), 3 * pow_of VS byz < pow_of VS (fun _ => true) ->
+  forall (S : System.sys) (i : nat) (a : bytes) (j : nat) (b : bytes),
+    reachable VS h0 c byz S -> In (i, a) (cms S) -> In (j, b) (cms S) -> a = b.
+Proof. exact system_agreement. Qed.
+Print Assumptions c01_system_agreement.
+
+(* (9) where a commit comes from: an OCommit output of one handled input rests on valid precommits
+   for one block id, in one round, from more than two thirds of the power, all delivered to the node *)
+Theorem c01_commit_backed :
+  forall (VS : list validator), bounded VS -> forall (h0 : Z) (c : cfg) (i : input), c_skip_commit c = false ->
+  forall off n n' o hc hash, node_ok VS h0 off n -> height n = h0 -> handle c i n = Ok (n', o) -> In (OCommit hc hash) o ->
+    hc = h0 /\ hash <> [] /\ exists r b, b_hash b = hash /\ Qr VS (VoteSetProofs.voted_for VS h0 r 2%N (delivered_of i ++ off) b).
+Proof. exact CW_handle. Qed.
+Print Assumptions c01_commit_backed.
+
+(* ---- non-vacuity: four validators of power 1, the fourth Byzantine; the three honest nodes run
+   a round, the Byzantine validator's nil prevote, a false majority claim and a conflicting precommit
+   are delivered, all
+   three commit the same block; a forged vote of an honest validator is not admissible ---- *)
+Definition sx_a (k : N) : bytes := [k].
+Definition sx_vs : valset :=
+  match new_valset [mkVal (sx_a 1) (sx_a 1) 1 0 false; mkVal (sx_a 2) (sx_a 2) 1 0 false;
+                    mkVal (sx_a 3) (sx_a 3) 1 0 false; mkVal (sx_a 4) (sx_a 4) 1 0 false] with
+  | Ok vs => vs | _ => mkVSet [] None 0 end.
+Definition sx_VS : list validator := Eval vm_compute in vals_of sx_vs.
+Definition sx_byz (i : nat) : bool := negb (Nat.ltb i 3).
+Definition sx_node (i : nat) : node :=
+  match init_node 1 sx_vs None (Some (sx_a (N.of_nat (i + 1)))) (mkSg 0 0 0 None) with
+  | Ok n => n
+  | _ => mkNode 0 0 0 sx_vs sx_vs None None None 0 None (mkHvs 0 [] 0 [] []) 0 None None (mkSg 0 0 0 None)
+  end.
+Definition sx_S0 : System.sys := mkSys sx_node (fun _ => []) (fun _ => []) [] [].
+Definition sx_B : Node.blk := mkBlk [7%N] 1 [8%N] true.
+Definition sx_B' : Node.blk := mkBlk [9%N] 1 [8%N] true.
+Definition sx_vote (i : Z) (t : N) (r : Z) (b : block_id) : VoteSet.vote :=
+  mkVote (sx_a (Z.to_N (i + 1))) i 1 r t b [Z.to_N i; Z.to_N r; t] true.
+Definition sx_script : list sevent :=
+  flat_map (fun j => [EIn j (ITimeout 1 0 1); EIn j (IProposal (mkProp 1 0 (-1) 1 [8%N]) (sx_a 1) (sx_a 1));
+                      EIn j (IPart 1 0 0 sx_B true (match j with O => [] | _ => sx_a 1 end))]) [0; 1; 2]%nat
+  ++ [EIn 0%nat (IVote (sx_vote 3 1 0 nil_bid) (sx_a 4)); EMaj 2%nat 0 1 (sx_a 4) (blk_bid sx_B')]
+  ++ flat_map (fun j => map (fun k => EIn j (IVote (sx_vote k 1 0 (blk_bid sx_B)) (sx_a (Z.to_N (k + 1))))) [0; 1; 2]) [0; 1; 2]%nat
+  ++ [EIn 1%nat (IVote (sx_vote 3 2 0 (blk_bid sx_B')) (sx_a 4))]
+  ++ flat_map (fun j => map (fun k => EIn j (IVote (sx_vote k 2 0 (blk_bid sx_B)) (sx_a (Z.to_N (k + 1))))) [0; 1; 2]) [0; 1; 2]%nat.
+Notation sx_final := (exec sx_VS 1 (mkCfg false) sx_byz sx_S0 sx_script) (only parsing).
+
+Example c01_system_premises : bounded sx_VS /\ 3 * pow_of sx_VS sx_byz < pow_of sx_VS (fun _ => true) /\ init_sys sx_VS 1 sx_byz sx_S0.
+Proof.
+  split; [split; [repeat constructor; cbn; lia|vm_compute; reflexivity]|]. split; [vm_compute; reflexivity|].
+  split; [reflexivity|]. split; [reflexivity|]. intros i Hi. split; [reflexivity|]. split; [reflexivity|].
+  exists sx_vs, None, (Some (sx_a (N.of_nat (i + 1)))), (mkSg 0 0 0 None).
+  split; [|split; [vm_compute; reflexivity|cbn; lia]].
+  cbn [System.st sx_S0]. unfold sx_node, init_node. destruct (new_hvs 1 (vals_of sx_vs)) eqn:E; [reflexivity|vm_compute in E; discriminate..].
+Qed.
+Example c01_system_nonvacuous :
+  exists S, reachable sx_VS 1 (mkCfg false) sx_byz S /\
+    cms S = [(2%nat, [7%N]); (1%nat, [7%N]); (0%nat, [7%N])] /\ length (System.tr S) = 8%nat /\
+    map (fun i => height (System.st S i)) [0; 1; 2]%nat = [2; 2; 2].
+Proof.
+  assert (H : option_map (fun S => (cms S, length (System.tr S), map (fun i => height (System.st S i)) [0; 1; 2]%nat)) sx_final
+              = Some ([(2%nat, [7%N]); (1%nat, [7%N]); (0%nat, [7%N])], 8%nat, [2; 2; 2])) by (vm_compute; reflexivity).
+  destruct sx_final as [S|] eqn:E; [|discriminate H].
+  exists S. split.
+  - exact (exec_reachable sx_VS 1 (mkCfg false) eq_refl sx_byz sx_script sx_S0 S (reach_init _ _ _ _ _ (proj2 (proj2 c01_system_premises))) E).
+  - unfold option_map in H. injection H as H1 H2 H3 H4 H5. split; [exact H1|split; [exact H2|cbn [map]; rewrite H3, H4, H5; reflexivity]].
+Qed.
+Example c01_forged_vote_not_admissible :
+  exec sx_VS 1 (mkCfg false) sx_byz sx_S0 [EIn 0%nat (IVote (sx_vote 1 1 0 (blk_bid sx_B)) (sx_a 2))] = None.
+Proof. vm_compute. reflexivity. Qed.
